@@ -61,6 +61,11 @@ BIT_STRING_decode_oer(const asn_codec_ctx_t *opt_codec_ctx,
         ptr = (const char *)ptr + 1;
         size--;
         expected_length--;
+        if(expected_length == 0 && st->bits_unused) {
+            ASN_DEBUG("%s: unused bits in an empty bit string", td->name);
+            st->bits_unused = 0;
+            ASN__DECODE_FAILED;
+        }
         rval.consumed = len_len + 1;
     }
 
